@@ -395,28 +395,58 @@ Fixpoint nlookup {A} (k : nat) (l : list (nat * A)) : option A :=
   | (k', v) :: t => if Nat.eqb k k' then Some v else nlookup k t
   end.
 
-(** property per step on an observed (or model) history: no lifecycle panic, no Handle panic, and a
-    generation answers every time exactly as it answered the first time (same filters visited in
-    the same order, same result) - in particular after it has been inherited from. *)
-Fixpoint pipe_prop_steps (first : list (nat * pl_obs)) (ops : list pl_op) (obs : list pl_obs) : list bool :=
+(** the observation of the first request handled by generation [g] in a history *)
+Fixpoint first_handle (g : nat) (ops : list pl_op) (obs : list pl_obs) : option pl_obs :=
   match ops, obs with
-  | o :: ot, b :: bt =>
-      match o, b with
-      | PlHandle g, PoHandle evs r =>
-          match r with
-          | PPanic => false :: pipe_prop_steps first ot bt
-          | _ =>
-              match nlookup g first with
-              | Some b0 => obs_eqb b b0 :: pipe_prop_steps first ot bt
-              | None => true :: pipe_prop_steps ((g, b) :: first) ot bt
-              end
-          end
-      | PlHandle _, _ => false :: pipe_prop_steps first ot bt
-      | _, PoLife pk _ => negb pk :: pipe_prop_steps first ot bt
-      | _, _ => false :: pipe_prop_steps first ot bt
-      end
+  | PlHandle g' :: ot, b :: bt => if Nat.eqb g' g then Some b else first_handle g ot bt
+  | _ :: ot, _ :: bt => first_handle g ot bt
+  | _, _ => None
+  end.
+
+(** recorder ids of the filter instances CREATED by a lifecycle observation *)
+Definition created_ids (b : pl_obs) : list Z :=
+  match b with
+  | PoLife _ evs => flat_map (fun e => match e with EInit i _ | EInherit i _ _ => [i] | _ => [] end) evs
+  | _ => []
+  end.
+
+(** per pipeline generation (= per Init/Inherit op, in order): the instances it created *)
+Fixpoint pipe_owned (ops : list pl_op) (obs : list pl_obs) : list (list Z) :=
+  match ops, obs with
+  | PlHandle _ :: ot, _ :: bt => pipe_owned ot bt
+  | _ :: ot, b :: bt => created_ids b :: pipe_owned ot bt
   | _, _ => []
   end.
+
+Definition is_ppanic (r : pl_res) : bool := match r with PPanic => true | _ => false end.
+Definition handle_ev_in (ids : list Z) (e : pl_ev) : bool :=
+  match e with EHandle i _ => existsb (Z.eqb i) ids | _ => false end.
+
+(** property of ONE step of an observed (or model) history [ops0]/[obs0]: no lifecycle panic; a
+    request handled by generation [g] does not panic, visits only filter instances created by [g]
+    (one generation per request) and is answered exactly like the FIRST request that [g] ever
+    handled (same instances in the same order, same result) - in particular after [g] has been
+    inherited from and closed. *)
+Definition pipe_step_ok (ops0 : list pl_op) (obs0 : list pl_obs) (o : pl_op) (b : pl_obs) : bool :=
+  match o, b with
+  | PlHandle g, PoHandle evs r =>
+      negb (is_ppanic r) && opt_eqb obs_eqb (first_handle g ops0 obs0) (Some b) &&
+      forallb (handle_ev_in (nth g (pipe_owned ops0 obs0) [])) evs
+  | PlHandle _, _ => false
+  | _, PoLife pk _ => negb pk
+  | _, _ => false
+  end.
+
+Fixpoint pipe_steps_aux (ops0 : list pl_op) (obs0 : list pl_obs) (ops : list pl_op) (obs : list pl_obs) : list bool :=
+  match ops, obs with
+  | [], [] => []
+  | o :: ot, b :: bt => pipe_step_ok ops0 obs0 o b :: pipe_steps_aux ops0 obs0 ot bt
+  | _, _ => [false]                      (* an operation without observation or vice versa *)
+  end.
+
+Definition pipe_steps (ops : list pl_op) (obs : list pl_obs) : list bool := pipe_steps_aux ops obs ops obs.
+Definition pipe_prop (ops : list pl_op) (obs : list pl_obs) : bool :=
+  match first_false (pipe_steps ops obs) O with None => true | Some _ => false end.
 
 Fixpoint pipe_old_handled (inherited : list nat) (ops : list pl_op) : bool :=
   match ops with
@@ -435,9 +465,9 @@ Definition check_pipe (pinned : rquirks) (c : pipe_case) : result :=
   if pc_bad c then (true, true, 0%N, 0%N) else
   let model q := pl_run q (pc_specs c) pl_world0 (pc_ops c) in
   let corr := list_eqb obs_eqb (model pinned) (pc_obs c) in
-  let ff := first_false (pipe_prop_steps [] (pc_ops c) (pc_obs c)) O in
-  let prop := match ff with None => true | Some _ => false end in
-  let ff_of q := first_false (pipe_prop_steps [] (pc_ops c) (model q)) O in
+  let ff := first_false (pipe_steps (pc_ops c) (pc_obs c)) O in
+  let prop := pipe_prop (pc_ops c) (pc_obs c) in
+  let ff_of q := first_false (pipe_steps (pc_ops c) (model q)) O in
   (* necessary cause: without flag i alone the first failure disappears (or moves later) *)
   let nec1 := rq_steal pinned && later (ff_of (without_steal pinned)) ff in
   let nec2 := rq_foreign pinned && later (ff_of (without_foreign pinned)) ff in
